@@ -56,7 +56,7 @@ def run(tier, seed):
     rnd = random.Random(seed)
     import translate
     tie_ok, tout = translate.run(['tables'])
-    proof = common.build_property(PID, extra=['Cnl/CoreCases.vo'])
+    proof = common.build_property(PID, extra=['Cnl/CoreCases.vo', 'Cnl/CoreScopeCases.vo'])
     n = 400 if tier == 'thorough' else 36
     specs = gen_core.directed()
     while len(specs) < n:
@@ -102,6 +102,8 @@ def run(tier, seed):
         tie_broken.append('translator failed closed: ' + tout[-400:])
     if proof['ok'] or proof['extra_ok']:
         kf = common.run_cases(PID, 'corr', PRE, kcases, 'kcase_ok', shard=40)
+        out_scope = common.run_cases(PID, 'scope', PRE + ' Require Import Cnl2aspV.Cnl.CoreScopeCases.', kcases, 'kcase_in_scope', shard=40)
+        st['specs_in_scope_of_answer_sets_theorem'] = len(kcases) - len(out_scope)
         sf = common.run_cases(PID, 'snd', PRE, mcases, 'models_sound', shard=5)
         gf = common.run_cases(PID, 'gsnd', PRE, mcases, 'models_sound_ground', shard=5)
         cf = common.run_cases(PID, 'cmp', PRE, mcases, 'models_complete', shard=1)
